@@ -184,3 +184,14 @@ Lemma cid_rotation_needs_full_limit :
   play a (mkL (l_max_data a) (l_sd_bl a) (l_sd_br a) (l_sd_uni a) (l_s_bidi a) (l_s_uni a) (l_cid a - 1)
               (l_dgram a) (l_idle a) (l_udp a)) [EvCID (l_cid a - 2); EvCID 1] = Err ConnectionIDLimitError.
 Proof. reflexivity. Qed.
+
+(* non-vacuity of [grants_sync]: a conformant history with increasing grants exists *)
+Lemma grants_example :
+  let a := advertised advenf_spec_Chrome_146_IPv4 in
+  let e := mkEnv a (enforced_spec a default_config) in
+  option_map (fun s' => [rw (s' KSD2); cr (s' KSD2); rw (s' KSU); cr (s' KSU); rw (s' KSD1) - cr (s' KSD1)])
+    (run_st e (init e)
+      [EvData 2 3000000; EvGrant KSD2 9291456; EvGrant KConn 18728640; EvData 2 6291456; EvOpen 2 102;
+       EvGrant KSU 104; EvOpen 2 1; EvCID 1; EvRetireCID; EvCID 1])
+  = Some [9291456; 9291456; 104; 104; 0].
+Proof. reflexivity. Qed.
